@@ -965,6 +965,30 @@ func (k *checker) checkAVC(smp, strm []byte) {
 			}
 		}
 	}
+	// results handed out earlier must not change when the helpers are used on another sample
+	if n > 1 && !k.failed {
+		var h1, h2 []avc.NaluType
+		ok := k.guard("avc.FindNaluTypes", func() { h1 = avc.FindNaluTypes(smp) }) &&
+			k.guard("avc.FindNaluTypesUpToFirstVideoNALU", func() { h2 = avc.FindNaluTypesUpToFirstVideoNALU(smp) })
+		if ok {
+			c1, c2 := append([]avc.NaluType{}, h1...), append([]avc.NaluType{}, h2...)
+			rev := make([][]byte, n)
+			for i := range units {
+				rev[i] = units[n-1-i]
+			}
+			other := annexb.BuildSample(rev)
+			k.guard("avc.FindNaluTypes", func() { _ = avc.FindNaluTypes(other) })
+			k.guard("avc.FindNaluTypesUpToFirstVideoNALU", func() { _ = avc.FindNaluTypesUpToFirstVideoNALU(other) })
+			k.guard("avc.HasParameterSets", func() { _ = avc.HasParameterSets(other) })
+			c.Count("held_type_lists_rechecked", 2)
+			if !eqTypes(toInts(h1), toInts(c1)) {
+				k.viol("avc.FindNaluTypes", "earlier-result-changed-by-later-call", fmt.Sprintf("the list returned for unit types %v reads %v after the helpers ran on another sample", m.types, toInts(h1)))
+			}
+			if !eqTypes(toInts(h2), toInts(c2)) {
+				k.viol("avc.FindNaluTypesUpToFirstVideoNALU", "earlier-result-changed-by-later-call", fmt.Sprintf("the list returned as %v reads %v after the helpers ran on another sample (unit types %v)", toInts(c2), toInts(h2), m.types))
+			}
+		}
+	}
 	// recycled sample buffer: see checkHEVC
 	if n > 0 && len(smp)-len(units[n-1]) >= 8 && !k.failed {
 		off := len(smp) - len(units[n-1])
@@ -1129,6 +1153,30 @@ func (k *checker) checkHEVC(smp, strm []byte) {
 	k.checkExtractOfType("hevc.ExtractNalusOfTypeFromByteStream", m, 64, func(t int, stop bool) [][]byte {
 		return hevc.ExtractNalusOfTypeFromByteStream(hevc.NaluType(t), strm, stop)
 	}, annexb.HEVCIsVCL)
+	// results handed out earlier must not change when the helpers are used on another sample
+	if n > 1 && !k.failed {
+		var h1, h2 []hevc.NaluType
+		ok := k.guard("hevc.FindNaluTypes", func() { h1 = hevc.FindNaluTypes(smp) }) &&
+			k.guard("hevc.FindNaluTypesUpToFirstVideoNalu", func() { h2 = hevc.FindNaluTypesUpToFirstVideoNalu(smp) })
+		if ok {
+			c1, c2 := append([]hevc.NaluType{}, h1...), append([]hevc.NaluType{}, h2...)
+			rev := make([][]byte, n)
+			for i := range units {
+				rev[i] = units[n-1-i]
+			}
+			other := annexb.BuildSample(rev)
+			k.guard("hevc.FindNaluTypes", func() { _ = hevc.FindNaluTypes(other) })
+			k.guard("hevc.FindNaluTypesUpToFirstVideoNalu", func() { _ = hevc.FindNaluTypesUpToFirstVideoNalu(other) })
+			k.guard("hevc.HasParameterSets", func() { _ = hevc.HasParameterSets(other) })
+			c.Count("held_type_lists_rechecked", 2)
+			if !eqTypes(toInts(h1), toInts(c1)) {
+				k.viol("hevc.FindNaluTypes", "earlier-result-changed-by-later-call", fmt.Sprintf("the list returned for unit types %v reads %v after the helpers ran on another sample", m.types, toInts(h1)))
+			}
+			if !eqTypes(toInts(h2), toInts(c2)) {
+				k.viol("hevc.FindNaluTypesUpToFirstVideoNalu", "earlier-result-changed-by-later-call", fmt.Sprintf("the list returned as %v reads %v after the helpers ran on another sample (unit types %v)", toInts(c2), toInts(h2), m.types))
+			}
+		}
+	}
 	// the caller recycles its sample buffer: the next access unit arrives at the same address with the same
 	// length and the same leading bytes, only the type of its last unit differs
 	if n > 0 && len(smp)-len(units[n-1]) >= 8 && !k.failed {
